@@ -92,8 +92,8 @@ Proof. exact lower_times. Qed.
    masks, jumps forwards and backwards (loops) to user labels, with or without a time argument.  Both are
    validated against AstVm itself on every run (Corr.C02.model_run: source body, and raised compiled code).
    For every body of statements covered by [wf_stmt] (assignments with any compound operator over jump-free
-   right-hand sides, ternary assignments, declarations (one variable with a jump-free or ternary initialiser, or several
-   variables with jump-free initialisers),
+   right-hand sides, ternary assignments, declarations (one variable with a jump-free or ternary initialiser, or any list of
+   variables each without initialiser or with a jump-free one),
    scope ends, empty statements, conditional / counting / unconditional jumps, labels, interrupts, instruction
    calls with jump-free or ternary arguments (complex arguments go through temporaries that are live across the call and freed after it);
    statements disabled on the VM's difficulty are waited for and skipped),
@@ -106,7 +106,7 @@ Proof. exact lower_times. Qed.
      statement's time.  Without this guard the statement is FALSE of the code: recorded finding
      c02-oracle:explicit-jump-time (corpus/C02/explicit_jump_time.txt);
    - a NaN operand of a comparison inside a condition (the property quantifies over non-NaN floats);
-   - a scope end or empty statement that is the first statement at its time: the compiled code has nothing there
+   - a scope end, an empty statement or a declaration without any initialiser that is the first statement at its time: the compiled code has nothing there
      that could wait (only the final time / real time of the VM differ).
    Scope markers are lexical in both machines: passing over a declaration or a scope end (seeking a label, or on
    another difficulty) resets that local to its default, as RegAlloc/RegFree do in the stream. *)
@@ -122,19 +122,19 @@ Proof. exact body_correct_gen. Qed.
 
 (* non-vacuity of Stage C: a loop through a backward counting jump (3 iterations), a compound assignment
    through a temporary, a ternary, `unless (a || b) goto L @ t`, a declaration with a ternary initialiser, a call
-   disabled on the VM's difficulty, a scope end, calls with complex and ternary arguments: the premises hold, the strict source
-   run ends (time 40, real time 60, 5 logged calls) and so does the lowered stream, in the same state *)
+   disabled on the VM's difficulty, scope ends, declarations without initialiser (alone and in a list), calls with complex and ternary arguments: the premises hold, the strict source
+   run ends (time 40, real time 60, 6 logged calls) and so does the lowered stream, in the same state *)
 Example C02_body_example :
   let rty := fun _ : Z => TInt in let lty := fun _ : nat => TInt in let libm := fun (_ : unop) (_ : Z) => 0 in
   exists code s' st',
-    lower_body ex_avail true rty lty 20 ex_body (mklst 1 []) = Ok (code, s') /\ length code = 49%nat /\
-    wf_body rty lty 1 ex_body /\ fresh lty (p_mem ex_st0) 1 /\
+    lower_body ex_avail true rty lty 20 ex_body (mklst 2 []) = Ok (code, s') /\ length code = 57%nat /\
+    wf_body rty lty 2 ex_body /\ fresh lty (p_mem ex_st0) 2 /\
     sprog gen_optable libm rty lty 0 (Some 0%nat) true 10 ex_body Exec ex_st0 = Ok st' /\
-    p_time st' = 40 /\ p_real st' = 60 /\ length (p_log st') = 5%nat /\ regs (p_mem st') 1011 = VInt 27 /\
+    p_time st' = 40 /\ p_real st' = 60 /\ length (p_log st') = 6%nat /\ regs (p_mem st') 1011 = VInt 27 /\
     wprog gen_optable libm lty (Some 0%nat) 10 code Exec ex_st0 None = Ok st'.
 Proof. exact body_example. Qed.
 
-(* The full property, for reference.  Not yet a theorem: declarations without initialiser,
+(* The full property, for reference.  Not yet a theorem:
    difficulty switches inside expressions, ternaries nested inside
    arithmetic, and the composition with register allocation
    (Proofs/RegAllocSem.v, regalloc_simulates).  Those parts are covered by the structural correspondence (model lowering =
